@@ -9,11 +9,13 @@ Pipeline per run:
   1. a corpus of template sets (hand-written core + seeded random compositions of
      blocks, super(), self.block(), extends, includes with/without context,
      imports, macros, call blocks, set/filter blocks, loop filters, loop
-     controls, recursive loops, async iterables);
+     controls, recursive loops; loop data = lists, tuples, ranges, dict views,
+     plain iterators, sync generators (made afresh per run), async iterables);
   2. jv.asyncgen_util.Extractor reads the *generated* Python code of every
      template (and generate_async / render_async / make_module_async /
-     _get_default_module_async / BlockReference._async_call from the checkout
-     under test) and projects it onto AsyncGen.tla's statement language;
+     _get_default_module_async / BlockReference._async_call and the loop-data
+     adapter auto_aiter from the checkout under test) and projects it onto
+     AsyncGen.tla's statement language;
   3. TLC decides C36_AllClosedAtTaskEnd for every extracted structure under
      every consumer behaviour (next / close after any chunk, cancellation or
      data fault at any await, any data branching): it reports the leaking
